@@ -207,3 +207,103 @@ def make_doc(rng, chords=True, ties="attr", grace=True, tuplets=True, meter_chan
         norm.append(base)
     meta = {"repeat": rep is not None, "ending": ending_bar is not None, "nstaves": nstaves, "layers": layers_of, "as_children": as_children, "meter_change": change_at is not None, "nbars": nbars}
     return {"events": norm, "nstaves": nstaves}, "\n".join(out), meta
+
+
+def parse_text(xml_bytes):
+    """Read an MEI document (written by anyone) into the element events MeiLayer reads; independent of partitura."""
+    from lxml import etree
+    root = etree.fromstring(xml_bytes if isinstance(xml_bytes, bytes) else xml_bytes.encode("utf8"))
+    q = lambda t: "{%s}%s" % (NS, t)
+    XID = "{http://www.w3.org/XML/1998/namespace}id"
+    ACC = {"s": 1, "f": -1, "ss": 2, "x": 2, "ff": -2, "n": 0}
+    events = []
+    base = lambda ev, **kw: dict({"ev": ev, "n": 0, "s": "", "a": 0, "b": 0, "c": 0, "d": 0, "id": "", "id2": "", "notes": []}, **kw)
+    cnt = [0]
+
+    def xid(el):
+        if el.get(XID):
+            return el.get(XID)
+        cnt[0] += 1
+        return "_anon%d" % cnt[0]
+
+    def sig(text):
+        if text in (None, "0"):
+            return 0
+        return int(text[:-1]) * (1 if text[-1] == "s" else -1)
+
+    def accid(el):
+        a = el.get("accid") or el.get("accid.ges")
+        if a is None and el.find(q("accid")) is not None:
+            a = el.find(q("accid")).get("accid") or el.find(q("accid")).get("accid.ges")
+        return ACC.get(a, 0) if a else 0
+
+    def note_rec(el):
+        return {"id": xid(el), "pname": (el.get("pname") or "c").upper(), "accid": accid(el), "oct": int(el.get("oct") or 0),
+                "grace": 1 if el.get("grace") is not None else 0, "tie": (el.get("tie") or "")[:1]}
+
+    def walk_layer(el):
+        for ch in el:
+            if not isinstance(ch.tag, str):
+                continue
+            tag = etree.QName(ch).localname
+            if tag == "note":
+                events.append(base("note", id=xid(ch), a=int(ch.get("dur") or 4), b=int(ch.get("dots") or 0), notes=[note_rec(ch)]))
+            elif tag == "chord":
+                events.append(base("chord", id=xid(ch), a=int(ch.get("dur") or 4), b=int(ch.get("dots") or 0), notes=[note_rec(n) for n in ch.findall(q("note"))]))
+            elif tag in ("rest", "space"):
+                events.append(base(tag, id=xid(ch), a=int(ch.get("dur") or 4), b=int(ch.get("dots") or 0)))
+            elif tag == "mRest":
+                events.append(base("mrest", id=xid(ch)))
+            elif tag == "tuplet":
+                events.append(base("tuplet_start", a=int(ch.get("num")), b=int(ch.get("numbase"))))
+                walk_layer(ch)
+                events.append(base("tuplet_end"))
+            elif tag == "beam":
+                walk_layer(ch)
+
+    def walk_section(el):
+        for ch in el:
+            if not isinstance(ch.tag, str):
+                continue
+            tag = etree.QName(ch).localname
+            if tag == "scoreDef":
+                ms = ch.find(q("meterSig"))
+                cntv, unit = (ms.get("count"), ms.get("unit")) if ms is not None else (ch.get("meter.count"), ch.get("meter.unit"))
+                if cntv is not None:
+                    events.append(base("meter", c=int(cntv), d=int(unit)))
+            elif tag == "measure":
+                events.append(base("measure", s=ch.get("n") or "", id=ch.get("left") or "", id2=ch.get("right") or ""))
+                for st in ch.findall(q("staff")):
+                    events.append(base("staff", n=int(st.get("n") or 1)))
+                    for ly in st.findall(q("layer")):
+                        events.append(base("layer", n=int(ly.get("n") or 1)))
+                        walk_layer(ly)
+                        events.append(base("endlayer"))
+                for t in ch.findall(q("tie")):
+                    if t.get("startid") and t.get("endid"):
+                        events.append(base("tie", id=t.get("startid")[1:], id2=t.get("endid")[1:]))
+                events.append(base("endmeasure"))
+            elif tag == "section":
+                walk_section(ch)
+            elif tag == "ending":
+                events.append(base("ending_start", n=int("".join(c for c in (ch.get("n") or "0") if c.isdigit()) or 0)))
+                walk_section(ch)
+                events.append(base("ending_end"))
+    music = root.find(".//" + q("music"))
+    for sd in music.iter(q("staffDef")):
+        if sd.getparent() is not None and etree.QName(sd.getparent()).localname == "staffGrp":
+            cl, ks, ms = sd.find(q("clef")), sd.find(q("keySig")), sd.find(q("meterSig"))
+            scd = next(iter(sd.iterancestors(q("scoreDef"))), None)
+            count = ms.get("count") if ms is not None else sd.get("meter.count") or (scd.get("meter.count") if scd is not None else None)
+            unit = ms.get("unit") if ms is not None else sd.get("meter.unit") or (scd.get("meter.unit") if scd is not None else None)
+            msig = (scd.find(q("meterSig")) if scd is not None else None)
+            if count is None and msig is not None:
+                count, unit = msig.get("count"), msig.get("unit")
+            ksig = ks.get("sig") if ks is not None else sd.get("key.sig") or (scd.get("key.sig") if scd is not None else None)
+            events.append(base("staffdef", n=int(sd.get("n") or 1), s=(cl.get("shape") if cl is not None else sd.get("clef.shape")) or "",
+                               a=int((cl.get("line") if cl is not None else sd.get("clef.line")) or 0), b=sig(ksig), c=int(count or 4), d=int(unit or 4)))
+    for sec in music.iter(q("score")):
+        for ch in sec:
+            if isinstance(ch.tag, str) and etree.QName(ch).localname == "section":
+                walk_section(ch)
+    return {"events": events, "nstaves": sum(1 for e in events if e["ev"] == "staffdef")}
